@@ -32,7 +32,9 @@ BUDGET = {
     "quick": {"examples": 350, "workers": 8, "time_cap": 70},
     "thorough": {"examples": 5000, "workers": 14, "time_cap": 900},
 }
-BAD = ["float-comment", "none-in-announce", "surrogate-comment", "surrogate-url", "none-in-url-list", "float-source"]
+BAD = ["float-comment", "none-in-announce", "surrogate-comment", "surrogate-url", "none-in-url-list", "float-source",
+       # bencode has no boolean type either
+       "bool-comment", "bool-source", "bool-in-announce", "bool-in-httpseeds"]
 
 
 def strategy(tier):
@@ -66,6 +68,14 @@ def bad_args(kind):
         args["url-list"] = ["http://a", None]
     elif kind == "surrogate-comment":
         args["comment"] = "x\ud800y"
+    elif kind == "bool-comment":
+        args["comment"] = True
+    elif kind == "bool-source":
+        args["source"] = False
+    elif kind == "bool-in-announce":
+        args["announce"] = ["http://a", True]
+    elif kind == "bool-in-httpseeds":
+        args["httpseeds"] = [False]
     elif kind == "surrogate-url":
         args["httpseeds"] = ["http://\udcff"]
     return args
